@@ -40,6 +40,9 @@ type ExecCtx struct {
 	pendingLabel string
 	curPos   token.Pos
 	loopBinds []map[string]Val
+	paramObjs map[*types.Var]bool // receiver, parameters and results of the unit's function
+	headerNames map[string]bool
+	instSig  *types.Signature
 	callArgs []Val
 	callRecv *Val
 	inlinedFunc bool // body of a named function inlined at a call site
